@@ -228,6 +228,17 @@ func (s *storage) walkPack(verbose bool, packID int,
 				log.Printf("found %s at %d", ref, pos)
 			}
 		}
+		// A record whose body extends past the end of the file was
+		// torn by a crash during append: like a torn header, it is
+		// not a blob.
+		if fi, err := fh.Stat(); err != nil {
+			return errAt("", "cannot stat: "+err.Error())
+		} else if pos+1+int64(m)+int64(size) > fi.Size() {
+			if verbose {
+				log.Printf("ignoring truncated blob at %d", pos)
+			}
+			break
+		}
 		if err = walker(packID, ref, pos+1+int64(m), size); err != nil {
 			return err
 		}
